@@ -3,6 +3,7 @@
 # Regenerates _CoqProject/Makefile.coq from the file listing so that new files need no registration.
 set -e
 cd "$(dirname "$0")"
+ulimit -v 26000000 2>/dev/null || true
 exec 9>.build.lock
 flock 9
 {
